@@ -277,7 +277,7 @@ def SimpleOpenGrid(
         splits = np.broadcast_to(splits, (depth,) + min_shape.shape)
     if depth is None:
         depth = len(splits)
-    padding = np.ceil((window_size - 1) // 2).astype(np.int_)
+    padding = np.ceil((np.asarray(window_size) - 1) // 2).astype(np.int_)
     padding = np.broadcast_to(padding, (depth,) + min_shape.shape)
 
     # Conservative estimate of the shape at zero depth
